@@ -991,6 +991,8 @@ def program_grid(tier):
     _CC = onp.array([0.5 - 1.0j, 2.0 + 0.25j])
     p("real value computed from a complex sub-graph, joined with complex constants, projected back to the reals",
       lambda np, x: np.real(np.sum(np.concatenate([np.real(np.exp(1j * x) * onp.array([1.0 + 2.0j, -0.5 + 0.5j])), _CC]) * _KC)) + np.imag(np.sum(np.exp(1j * x) ** 2)), [R(2)])
+    p("power spectrum through fftshift: sum(w * |fftshift(fft(x))|^2)", lambda np, x: np.sum(onp.array([1.0, -2.0, 0.5, 3.0]) * (np.real(np.fft.fftshift(np.fft.fft(x))) ** 2 + np.imag(np.fft.fftshift(np.fft.fft(x))) ** 2)), [R(4)])
+    p("ifftshift of a complex spectrum, back through ifft", lambda np, x: np.real(np.fft.ifft(np.fft.ifftshift(np.fft.fftshift(np.fft.fft(x)) * onp.array([1.0 + 1.0j, 0.5, 2.0 - 1.0j, 1.0])))) * x, [R(4)])
     p("standardise", lambda np, x: (x - np.mean(x)) / np.std(x), [R(3)])
     p("softmax", lambda np, x: np.exp(x) / np.sum(np.exp(x)), [R(3)])
     p("logsumexp", lambda np, x: np.log(np.sum(np.exp(x))), [R(3)])
